@@ -314,3 +314,26 @@ Definition effects_outcome (l : effects_layer) : list Z :=
       | Ok l' => [0; dig (c_effects l'); if list_eqb (c_effects l') (c_effects l) then 1 else 0]
       end ++ [if wf_effects l then 1 else 0]
   end.
+
+(* ---- Stage 2: Patterns (Psd/Patterns.v) *)
+From PsdV Require Import Psd.Patterns.
+Definition c_vma (a : vma) : list Z :=
+  match a with
+  | VmaSkipped => [0]
+  | VmaEmpty w => [1; w]
+  | VmaFull w depth rect pd comp data => [2; w; depth] ++ c_list c_z rect ++ [pd; comp] ++ c_bytes data
+  end.
+Definition c_pattern (p : pattern) : list Z :=
+  [pt_version p; pt_mode p; fst (pt_point p); snd (pt_point p)] ++ c_list c_z (pt_name p) ++ c_bytes (pt_id p) ++
+  c_opt (c_list (fun c : Z * Z * Z => let '(r, g, b) := c in [r; g; b])) (pt_table p) ++
+  [vl_version (pt_data p)] ++ c_list c_z (vl_rect (pt_data p)) ++ c_list c_vma (vl_channels (pt_data p)).
+Definition patterns_outcome (l : list pattern) : list Z :=
+  match write_patterns enc l with
+  | Err e => [err_code e]
+  | Ok (b, n) =>
+      [0; n; dig b] ++
+      match read_patterns dec (S (length b)) b with
+      | Err e => [err_code e]
+      | Ok l' => [0; dig (c_list c_pattern l'); if list_eqb (c_list c_pattern l') (c_list c_pattern l) then 1 else 0]
+      end ++ [if forallb (wf_pattern enc dec) l then 1 else 0]
+  end.
